@@ -271,10 +271,12 @@ func (w *World) Start() {
 		for {
 			select {
 			case t := <-w.Srv.VerifOutbox():
+				// the body of the production loop (processOutbox never terminates, so the loop itself is ours)
+				done := w.Srv.VerifDispatch(t)
 				w.sendWG.Add(1)
 				go func() {
 					defer w.sendWG.Done()
-					_ = w.Srv.VerifSendTransaction(t)
+					<-done
 				}()
 			case <-w.pumpStop:
 				return
